@@ -309,7 +309,7 @@ class P:
                     stmts.append(("expr", e))
                 elif self.at("}"):
                     tail = e
-                elif e[0] in ("if", "iflet", "match", "block", "unsafe", "while", "loop", "for"):
+                elif e[0] in ("if", "iflet", "match", "block", "unsafe", "while", "loop", "for", "foriter"):
                     stmts.append(("expr", e))
                 elif e[0] == "macro" and e[3] == "{":
                     stmts.append(("expr", e))
@@ -329,7 +329,7 @@ class P:
             return self.castexpr(stmt, nostruct)
         a = self.binexpr(lvl + 1, stmt, nostruct)
         # a block-like expression in statement position ends the statement
-        if stmt and a[0] in ("if", "iflet", "match", "block", "unsafe", "while", "loop", "for") and not self.at(".") and not self.at("?"):
+        if stmt and a[0] in ("if", "iflet", "match", "block", "unsafe", "while", "loop", "for", "foriter") and not self.at(".") and not self.at("?"):
             return a
         while True:
             t = self.peek()
@@ -510,7 +510,9 @@ class P:
             self.expect("in")
             lo = self.expr(nostruct=True)
             if not self.eat(".."):
-                raise ParseError("`for` over something that is not a range `a..b`")
+                # `for PAT in ITER { … }` over an iterator value
+                body = self.block()
+                return ("foriter", pat, lo, body)
             hi = self.expr(nostruct=True)
             body = self.block()
             return ("for", pat, ("range", lo, hi), body)
